@@ -23,11 +23,18 @@ type StepResult struct {
 	Client     []Msg // backend messages that reached the client (the trailing notice barrier removed)
 	DBSent     []Msg // backend messages the database end answered with (barrier excluded)
 	Terminated bool  // the proxy closed the session during this step
+	// NoBarrierAtDB: the proxy went quiet without forwarding the Flush barrier (it is discarding
+	// the rest of an extended query)
+	NoBarrierAtDB bool
 	Note       string
 }
 
-// ErrHarness marks errors of the driver itself (timeouts, undecodable barrier traffic).
+// ErrHarness marks errors of the driver itself (timeouts).
 var ErrHarness = errors.New("sess: harness error")
+
+// ErrMalformed marks traffic emitted by the proxy that the independent codec cannot decode:
+// a verdict about the proxy (malformed message), not a harness problem.
+var ErrMalformed = errors.New("sess: proxy emitted a malformed message")
 
 func cloneFrontend(m pgproto3.FrontendMessage) (Msg, error) {
 	raw, err := m.Encode(nil)
@@ -195,10 +202,20 @@ func (ps *PGSession) StepRaw(raw []byte, msgs []pgproto3.FrontendMessage, respon
 				res.Terminated = true
 				break
 			}
+			if errors.Is(err, ErrQuiescent) {
+				// the proxy sleeps and the barrier has not arrived: either it swallowed the rest of the
+				// group (legitimate while it discards an extended query) or the forwarded stream ends
+				// inside a message
+				res.NoBarrierAtDB = true
+				if pending := ps.DBEnd.pendingBytes(); pending > 0 || ps.backHasPartial() {
+					return res, fmt.Errorf("%w: stream to the database ends inside a message", ErrMalformed)
+				}
+				break
+			}
 			if errors.Is(err, os.ErrDeadlineExceeded) {
 				return res, fmt.Errorf("%w: timeout waiting for barrier at database end", ErrHarness)
 			}
-			return res, fmt.Errorf("%w: database end cannot decode forwarded traffic: %v", ErrHarness, err)
+			return res, fmt.Errorf("%w: database end cannot decode forwarded traffic: %v", ErrMalformed, err)
 		}
 		if _, ok := m.(*pgproto3.Flush); ok {
 			break
@@ -236,10 +253,13 @@ func (ps *PGSession) StepRaw(raw []byte, msgs []pgproto3.FrontendMessage, respon
 					res.Terminated = true
 					break
 				}
+				if errors.Is(err, ErrQuiescent) {
+					return res, fmt.Errorf("%w: the proxy went quiet before the barrier reached the client: the stream to the client is desynchronised or a relayed message was dropped", ErrMalformed)
+				}
 				if errors.Is(err, os.ErrDeadlineExceeded) {
 					return res, fmt.Errorf("%w: timeout waiting for barrier at client end", ErrHarness)
 				}
-				return res, fmt.Errorf("%w: client end cannot decode traffic: %v", ErrHarness, err)
+				return res, fmt.Errorf("%w: client end cannot decode traffic: %v", ErrMalformed, err)
 			}
 			if n, ok := m.(*pgproto3.NoticeResponse); ok && n.Message == barrier {
 				break
@@ -266,3 +286,14 @@ func (ps *PGSession) StepRaw(raw []byte, msgs []pgproto3.FrontendMessage, respon
 	}
 	return res, nil
 }
+
+func (c *Conn) pendingBytes() int {
+	c.in.hub.mu.Lock()
+	defer c.in.hub.mu.Unlock()
+	return len(c.in.buf)
+}
+
+// backHasPartial cannot look into pgproto3's chunk reader; a partially received message shows
+// as a read that hit quiescence after consuming bytes, which pgproto3 reports as an error other
+// than ErrQuiescent only when the header was complete. Conservatively: no.
+func (ps *PGSession) backHasPartial() bool { return false }
